@@ -1,6 +1,7 @@
 package main
 
 import (
+	"fmt"
 	"go/ast"
 	"go/token"
 	"go/types"
@@ -138,34 +139,107 @@ func c18r4(p *Program, r *Report) {
 			return true
 		}
 		n++
-		f, _ := facts.Before(as)
-		// in a range over supported["COMPRESSION"], under equality with compressor.Name()
-		rs, _ := p.enclosing(as, fi.Decl, func(m ast.Node) bool { _, ok := m.(*ast.RangeStmt); return ok }).(*ast.RangeStmt)
-		okLoop := false
-		if rs != nil {
-			src := exprStr(rs.X)
-			if id, ok := ast.Unparen(rs.X).(*ast.Ident); ok {
-				if def := localDef(info, fi, id); def != nil {
-					src = exprStr(def)
+		// advertisedAt: node sits in a range over the server's COMPRESSION list under equality of the loop variable
+		// with the configured compressor's name
+		advertisedAt := func(node ast.Node) bool {
+			f, _ := facts.Before(p.stmtOf(node, fi))
+			rs, _ := p.enclosing(node, fi.Decl, func(m ast.Node) bool { _, ok := m.(*ast.RangeStmt); return ok }).(*ast.RangeStmt)
+			if rs == nil {
+				return false
+			}
+			src := p.canonText(fi, rs.X)
+			if id, ok := ast.Unparen(rs.X).(*ast.Ident); ok && !strings.Contains(src, `["COMPRESSION"]`) {
+				// comp, ok := supported["COMPRESSION"]
+				if d := localDefMulti(info, fi, id); d != nil {
+					src = p.canonText(fi, d)
+					if isCompKey(ast.Unparen(d)) {
+						return false
+					}
 				}
 			}
-			okLoop = strings.Contains(src, `["COMPRESSION"]`) && !strings.Contains(src, "opts[") && !strings.HasPrefix(src, "m[")
+			if !strings.Contains(src, `["COMPRESSION"]`) || isCompKey(ast.Unparen(p.expandExpr(fi, rs.X, 0))) {
+				return false
+			}
+			loopVar := ""
+			if rs.Value != nil {
+				loopVar = exprStr(rs.Value)
+			}
+			for atom, v := range f.m {
+				if !v || !strings.Contains(atom, " == ") {
+					continue
+				}
+				parts := strings.SplitN(atom, " == ", 2)
+				for i := 0; i < 2; i++ {
+					a, b := parts[i], parts[1-i]
+					if a != loopVar {
+						continue
+					}
+					// the other side is the compressor's name (directly or through a local)
+					if strings.HasSuffix(b, ".compressor.Name()") {
+						return true
+					}
+					nameOK := false
+					ast.Inspect(fi.Decl.Body, func(m ast.Node) bool {
+						if a2, ok := m.(*ast.AssignStmt); ok && len(a2.Rhs) == 1 && len(a2.Lhs) == 1 && exprStr(a2.Lhs[0]) == b && strings.HasSuffix(exprStr(a2.Rhs[0]), ".compressor.Name()") {
+							nameOK = true
+						}
+						return true
+					})
+					if nameOK {
+						return true
+					}
+				}
+			}
+			return false
 		}
-		eq := false
-		for atom, v := range f.m {
-			if v && strings.Contains(atom, " == ") && (strings.Contains(atom, "name") || strings.Contains(atom, ".Name()")) {
-				eq = true
+		okReq := advertisedAt(as)
+		how := "inside the loop over the server's COMPRESSION list, under equality with compressor.Name()"
+		if !okReq {
+			// through a flag: the assignment is under `flag` true and every `flag = true` is in such a loop
+			f, _ := facts.Before(as)
+			for atom, v := range f.m {
+				if !v || strings.ContainsAny(atom, " (.[") {
+					continue
+				}
+				flagName := atom
+				nTrue, allAdv := 0, true
+				ast.Inspect(fi.Decl.Body, func(m ast.Node) bool {
+					a2, ok := m.(*ast.AssignStmt)
+					if !ok || len(a2.Lhs) != 1 || len(a2.Rhs) != 1 || exprStr(a2.Lhs[0]) != flagName {
+						return true
+					}
+					switch exprStr(a2.Rhs[0]) {
+					case "true":
+						nTrue++
+						if !advertisedAt(a2) {
+							allAdv = false
+						}
+					case "false":
+					default:
+						allAdv = false
+					}
+					return true
+				})
+				if nTrue > 0 && allAdv {
+					okReq = true
+					how = "under " + flagName + ", which is set only inside the loop over the server's COMPRESSION list under equality with compressor.Name()"
+				}
+			}
+			// the value requested must then be the compressor's name
+			if okReq {
+				v := exprStr(ast.Unparen(as.Rhs[0]))
+				isName := strings.HasSuffix(v, ".compressor.Name()")
+				if id, ok := ast.Unparen(as.Rhs[0]).(*ast.Ident); ok {
+					if d := localDef(info, fi, id); d != nil && strings.HasSuffix(exprStr(d), ".compressor.Name()") && singleAssigned(info, fi.Decl.Body, info.Uses[id]) {
+						isName = true
+					}
+				}
+				if !isName {
+					okReq = false
+				}
 			}
 		}
-		// the name compared is the configured compressor's name
-		nameOK := false
-		ast.Inspect(fi.Decl.Body, func(m ast.Node) bool {
-			if a2, ok := m.(*ast.AssignStmt); ok && len(a2.Rhs) == 1 && strings.HasSuffix(exprStr(a2.Rhs[0]), ".compressor.Name()") {
-				nameOK = true
-			}
-			return true
-		})
-		r.Check(okLoop && eq && nameOK, as, "(*startupCoordinator).startup requests only an advertised algorithm with the compressor's name", "inside the loop over supported[\"COMPRESSION\"], under equality with compressor.Name()",
+		r.Check(okReq, as, fi.Name+" requests only an advertised algorithm with the compressor's name", how,
 			"COMPRESSION is put into STARTUP without the server having advertised the configured compressor's name")
 		return true
 	})
@@ -175,14 +249,41 @@ func c18r4(p *Program, r *Report) {
 	// before STARTUP is written: either COMPRESSION was requested or the compressor was cleared (whenever one was configured)
 	type st struct{ open bool }
 	sol := Solve(g, Lattice[st]{
+		Init: st{true}, // a compressor may be configured and nothing was requested yet
 		Join: func(a, b st) st { return st{a.open || b.open} },
 		Eq:   func(a, b st) bool { return a == b },
 		Step: func(s st, step Step) st {
 			switch step.Kind {
 			case StCond:
-				c := exprStr(step.Node.(ast.Expr))
-				if strings.HasSuffix(c, ".compressor != nil") && step.Val || strings.HasSuffix(c, ".compressor == nil") && !step.Val {
-					s.open = true
+				// the condition establishes that no compressor is configured
+				var noComp func(e ast.Expr, val bool) bool
+				noComp = func(e ast.Expr, val bool) bool {
+					e = ast.Unparen(e)
+					if u, ok := e.(*ast.UnaryExpr); ok && u.Op == token.NOT {
+						return noComp(u.X, !val)
+					}
+					if b, ok := e.(*ast.BinaryExpr); ok {
+						switch b.Op {
+						case token.LAND:
+							if val {
+								return noComp(b.X, true) || noComp(b.Y, true)
+							}
+							return noComp(b.X, false) && noComp(b.Y, false)
+						case token.LOR:
+							if !val {
+								return noComp(b.X, false) || noComp(b.Y, false)
+							}
+							return noComp(b.X, true) && noComp(b.Y, true)
+						case token.EQL:
+							return strings.HasSuffix(exprStr(b.X), ".compressor") && isNil(info, b.Y) && val
+						case token.NEQ:
+							return strings.HasSuffix(exprStr(b.X), ".compressor") && isNil(info, b.Y) && !val
+						}
+					}
+					return false
+				}
+				if noComp(step.Node.(ast.Expr), step.Val) {
+					s.open = false
 				}
 				// `_, ok := m["COMPRESSION"]` ... ok true: it was requested
 				ce, val := ast.Unparen(step.Node.(ast.Expr)), step.Val
@@ -200,6 +301,9 @@ func c18r4(p *Program, r *Report) {
 				}
 			case StNode:
 				for _, l := range assignedLHS(step.Node) {
+					if isCompKey(l) {
+						s.open = false // COMPRESSION requested on this path
+					}
 					if strings.HasSuffix(exprStr(l), ".compressor") {
 						if as, ok := step.Node.(*ast.AssignStmt); ok && len(as.Rhs) == 1 && isNil(info, as.Rhs[0]) {
 							s.open = false
@@ -260,29 +364,45 @@ func c18r5(p *Program, r *Report) {
 		return
 	}
 	einfo := enc.Pkg.TypesInfo
-	var putBuf, putVal, dst, ret string
-	ast.Inspect(enc.Decl.Body, func(x ast.Node) bool {
-		switch s := x.(type) {
-		case *ast.CallExpr:
-			switch calleeName(einfo, s) {
-			case "binary.(bigEndian).PutUint32":
-				putBuf, putVal = exprStr(s.Args[0]), exprStr(s.Args[1])
-			case "lz4.(*Compressor).CompressBlock":
-				if len(s.Args) == 2 {
-					dst = exprStr(s.Args[1])
+	rr := &Report{Property: r.Property, cur: r.cur, Census: r.Census, prog: lp, seen: r.seen}
+	// the output buffer: the variable the function returns a prefix of
+	var bufName, retHi string
+	var retN int64
+	retOK := false
+	for _, e := range lp.GraphOf(enc).Exits() {
+		if rs, ok := e.Node.(*ast.ReturnStmt); ok && len(rs.Results) == 2 && isNil(einfo, rs.Results[1]) && !isNil(einfo, rs.Results[0]) {
+			if b, lo, hi, ok := lp.sliceRegion(enc, rs.Results[0]); ok && lo == 0 {
+				bufName, retHi = b, hi
+				if sl, ok := ast.Unparen(rs.Results[0]).(*ast.SliceExpr); ok && sl.High != nil {
+					if name, k, ok := constPlusIdent(einfo, sl.High); ok && name != "" {
+						retN, retOK = k, true
+						retHi = name
+					}
 				}
 			}
-		case *ast.ReturnStmt:
-			if len(s.Results) == 2 && isNil(einfo, s.Results[1]) {
-				ret = exprStr(s.Results[0])
+		}
+	}
+	if bufName == "" {
+		rr.Unresolved("lz4 Encode: the returned buffer is not a prefix of a local buffer")
+	}
+	var nVar string
+	for _, c := range callsIn(enc.Decl.Body) {
+		switch calleeName(einfo, c) {
+		case "binary.(bigEndian).PutUint32":
+			b, lo, _, ok := lp.sliceRegion(enc, c.Args[0])
+			val := lp.canonText(enc, c.Args[1])
+			rr.Check(ok && b == bufName && lo == 0 && val == "uint32(len(data))", c, "lz4 Encode writes the big-endian uncompressed length at offset 0", "PutUint32(buf[0:], uint32(len(data)))", fmt.Sprintf("Encode does not write the uncompressed length big-endian at the start of the block (destination %s+%d, value %s)", b, lo, val))
+		case "binary.(littleEndian).PutUint32":
+			rr.Bad(c, "lz4 Encode writes the big-endian uncompressed length at offset 0", "the length prefix is written little-endian")
+		case "lz4.(*Compressor).CompressBlock":
+			if len(c.Args) == 2 {
+				b, lo, _, ok := lp.sliceRegion(enc, c.Args[1])
+				rr.Check(ok && b == bufName && lo == 4, c, "lz4 Encode compresses after the 4-byte prefix", "CompressBlock(data, buf[4:])", fmt.Sprintf("the compressed block is placed at %s+%d, not after the 4-byte length", b, lo))
+				nVar = resultVarOf(lp, c, 0)
 			}
 		}
-		return true
-	})
-	rr := &Report{Property: r.Property, cur: r.cur, Census: r.Census, prog: lp, seen: r.seen}
-	rr.Check(putBuf == "buf" && putVal == "uint32(len(data))", enc.Decl, "lz4 Encode writes the big-endian uncompressed length at offset 0", "PutUint32(buf, uint32(len(data)))", "Encode does not write the uncompressed length big-endian at the start of the block (buffer "+putBuf+", value "+putVal+")")
-	rr.Check(dst == "buf[4:]", enc.Decl, "lz4 Encode compresses after the 4-byte prefix", "CompressBlock(data, buf[4:])", "the compressed block is not placed after the 4-byte length ("+dst+")")
-	rr.Check(ret == "buf[:n + 4]" || ret == "buf[:n+4]" || ret == "buf[:4 + n]", enc.Decl, "lz4 Encode returns prefix plus block", ret, "Encode returns "+ret+" instead of the 4-byte prefix plus the n compressed bytes")
+	}
+	rr.Check(retOK && retN == 4 && retHi == nVar && nVar != "", enc.Decl, "lz4 Encode returns prefix plus block", "buf[:n+4]", fmt.Sprintf("Encode returns %s[:%s+%d] instead of the 4-byte prefix plus the n compressed bytes", bufName, retHi, retN))
 	dg := lp.GraphOf(dec)
 	dinfo := dg.Info
 	facts := dg.GuardFacts()
@@ -295,13 +415,19 @@ func c18r5(p *Program, r *Report) {
 		switch calleeName(dinfo, c) {
 		case "binary.(bigEndian).Uint32":
 			nread++
-			f, _ := facts.Before(c)
+			f, _ := facts.Before(lp.stmtOf(c, dec))
 			d := newDBM(dg, f, nil)
-			d.noteLen(c.Args[0])
-			lt, lk, ok := d.term(lenCall(c.Args[0]))
-			rr.Check(exprStr(c.Args[0]) == "data" && ok && d.le(zeroNode, 4, lt, lk), c, "lz4 Decode reads the length field at offset 0 after checking for 4 bytes", "len(data) >= 4 known", "Decode reads the length prefix without having checked that 4 bytes are present (or not from offset 0)")
+			b, lo, _, okR := lp.sliceRegion(dec, c.Args[0])
+			dataE := ast.Expr(ast.NewIdent(b))
+			d.noteLen(dataE)
+			lt, lk, ok := d.term(lenCall(dataE))
+			rr.Check(okR && b == "data" && lo == 0 && ok && d.le(zeroNode, 4, lt, lk), c, "lz4 Decode reads the length field at offset 0 after checking for 4 bytes", "len(data) >= 4 known", "Decode reads the length prefix without having checked that 4 bytes are present (or not from offset 0)")
+		case "binary.(littleEndian).Uint32":
+			nread++
+			rr.Bad(c, "lz4 Decode reads the length field big-endian", "the length prefix is read little-endian")
 		case "lz4.UncompressBlock":
-			rr.Check(len(c.Args) == 2 && exprStr(c.Args[0]) == "data[4:]", c, "lz4 Decode decompresses the bytes after the prefix", "UncompressBlock(data[4:], buf)", "Decode decompresses "+exprStr(c.Args[0])+" instead of the bytes after the 4-byte prefix")
+			b, lo, _, okR := lp.sliceRegion(dec, c.Args[0])
+			rr.Check(len(c.Args) == 2 && okR && b == "data" && lo == 4, c, "lz4 Decode decompresses the bytes after the prefix", "UncompressBlock(data[4:], buf)", fmt.Sprintf("Decode decompresses %s+%d instead of the bytes after the 4-byte prefix", b, lo))
 		}
 		return true
 	})
